@@ -236,7 +236,8 @@ pub fn check_range(src: &str, source: &Source, cfg: Cfg, s: usize, e: usize) -> 
             let in_item = path.iter().any(|k| matches!(k, typst_syntax::SyntaxKind::ListItem | typst_syntax::SyntaxKind::EnumItem | typst_syntax::SyntaxKind::TermItem));
             let inner_markup = path.last() == Some(&typst_syntax::SyntaxKind::Markup);
             let shape = crate::shapes::excluded(source.root(), "C13").is_some();
-            if !erroneous && !in_item && !inner_markup && !shape {
+            let no_excl = std::env::var("VH_NO_EXCLUDE").is_ok();
+            if !erroneous && (no_excl || (!in_item && !inner_markup && !shape)) {
                 let spliced = format!("{}{}{}", &src[..rng.start], text, &src[rng.end..]);
                 let s2 = obs::parse(&spliced);
                 if s2.root().erroneous() {
